@@ -128,6 +128,9 @@ fn hist_cases() -> u64 {
 const GRID_CASES: u64 = 4 * 3 * 3; // thing x speed x ibs
 const E2_CASES: u64 = 3;
 const E2S_CASES: u64 = 2;
+/// cancellation family: 3 clocks, every subset dropped, x waiting thing {static, streaming, paused static, paused streaming, resume_at}
+const CANCEL_CASES: u64 = 5;
+const CANCEL_NAMES: [&str; 5] = ["static sound waiting to start", "streaming sound waiting to start", "static sound waiting to start, paused meanwhile", "streaming sound waiting to start, paused meanwhile", "paused static sound waiting to resume (resume_at)"];
 
 fn hist_depth(tier: Tier) -> usize {
 	tier.pick(5, 6)
@@ -141,7 +144,7 @@ impl Check for C05 {
 		Level::ModelChecking
 	}
 	fn num_cases(&self, _tier: Tier) -> u64 {
-		hist_cases() + GRID_CASES + E2_CASES + E2S_CASES
+		hist_cases() + GRID_CASES + E2_CASES + E2S_CASES + CANCEL_CASES
 	}
 	fn max_workers(&self) -> usize {
 		16
@@ -163,6 +166,8 @@ impl Check for C05 {
 				"scheduling grid: {} scheduled on a clock at {} ticks/s, internal buffer {}: target ticks 0..=3 x fraction {{0,.25,.5}} x every composition of 12 frames into callbacks of {{1,2,3,5}} frames",
 				THINGS[thing], speed, ibs
 			)
+		} else if idx >= hist_cases() + GRID_CASES + E2_CASES + E2S_CASES {
+			format!("cancellation: 3 clocks with a {} on each; every subset of the clock handles dropped in one interval (before / after everything was adopted): the things on dropped clocks become Stopped at the next callback, the others start when due", CANCEL_NAMES[(idx - hist_cases() - GRID_CASES - E2_CASES - E2S_CASES) as usize])
 		} else if idx >= hist_cases() + GRID_CASES + E2_CASES {
 			format!("E2 interleavings: {}", E2S_NAMES[(idx - hist_cases() - GRID_CASES - E2_CASES) as usize])
 		} else {
@@ -174,6 +179,8 @@ impl Check for C05 {
 			"clock history".into()
 		} else if idx < hist_cases() + GRID_CASES {
 			"scheduling grid".into()
+		} else if idx >= hist_cases() + GRID_CASES + E2_CASES + E2S_CASES {
+			format!("cancellation: {}", CANCEL_NAMES[(idx - hist_cases() - GRID_CASES - E2_CASES - E2S_CASES) as usize])
 		} else if idx >= hist_cases() + GRID_CASES + E2_CASES {
 			format!("E2 {}", E2S_NAMES[(idx - hist_cases() - GRID_CASES - E2_CASES) as usize])
 		} else {
@@ -181,7 +188,7 @@ impl Check for C05 {
 		}
 	}
 	fn rule(&self) -> String {
-		"E1a: all sequences of length <= depth over 11 letters (start, pause, stop, 5 speed changes incl. a tween scheduled on the clock's own time, callbacks of 1/3/4 frames) x sample rate {4,8} x internal buffer {1,2,4}, exact tick arithmetic (binary-exact dt). E1b: 4 kinds of scheduled thing x 3 speeds x 3 buffer sizes x 12 target times x every composition of 12 frames into callbacks from {1,2,3,5}. E2: every interleaving (preemption bound in evidence) of reader || audio thread (|| stop), switching before each atomic load/store of the clock's shared words; and of game(add_clock; start; play(sound scheduled on that clock)) || audio(3 callbacks), switching at every resource hand-over point: a sound waiting on a clock that exists is never cancelled. states = distinct clock model states; non-trivial = executions in which the clock advanced / two threads touched the clock words in an interleaved order".into()
+		"E1a: all sequences of length <= depth over 11 letters (start, pause, stop, 5 speed changes incl. a tween scheduled on the clock's own time, callbacks of 1/3/4 frames) x sample rate {4,8} x internal buffer {1,2,4}, exact tick arithmetic (binary-exact dt). E1b: 4 kinds of scheduled thing x 3 speeds x 3 buffer sizes x 12 target times x every composition of 12 frames into callbacks from {1,2,3,5}. Cancellation: 3 clocks x every subset of their handles dropped in one interval x {before, after} adoption x 5 kinds of waiting thing: cancelled exactly when its clock no longer exists. E2: every interleaving (preemption bound in evidence) of reader || audio thread (|| stop), switching before each atomic load/store of the clock's shared words; and of game(add_clock; start; play(sound scheduled on that clock)) || audio(3 callbacks), switching at every resource hand-over point: a sound waiting on a clock that exists is never cancelled. states = distinct clock model states; non-trivial = executions in which the clock advanced / two threads touched the clock words in an interleaved order".into()
 	}
 	fn assumptions(&self) -> Vec<String> {
 		vec![
@@ -209,6 +216,14 @@ impl Check for C05 {
 				pacer::set_mode(pacer::Mode::Pacer);
 			}
 			grid(tier, thing, speed, ibs, ctx);
+		} else if idx >= hist_cases() + GRID_CASES + E2_CASES + E2S_CASES {
+			let w = idx - hist_cases() - GRID_CASES - E2_CASES - E2S_CASES;
+			if w == 1 || w == 3 {
+				pacer::set_mode(pacer::Mode::Pacer);
+			}
+			if let Err(p) = catch(|| cancellation(w, ctx)) {
+				ctx.fail(format!("panic: {} :: cancellation", p), CANCEL_NAMES[w as usize]);
+			}
 		} else if idx >= hist_cases() + GRID_CASES + E2_CASES {
 			e2_sched(tier, idx - hist_cases() - GRID_CASES - E2_CASES, ctx);
 		} else {
@@ -891,4 +906,143 @@ fn e2_sched(tier: Tier, which: u64, ctx: &mut Ctx) {
 	for (s, d) in fails {
 		ctx.fail(s, d);
 	}
+}
+
+// ---------------------------------------------------------------------------------------------
+// cancellation: "is cancelled (a waiting sound becomes Stopped) if the clock no longer exists" - and only then
+
+fn cancellation(which: u64, ctx: &mut Ctx) {
+	use crate::probes::SoundHandle;
+	let sr = 4u32;
+	for subset in 0..8u32 {
+		for adopted_first in [false, true] {
+			for order_rev in [false, true] {
+				ctx.evals += 1;
+				ctx.traces += 1;
+				let desc = || format!("{}; clocks dropped: {:#05b} (bit i = clock i){}; drop order {}; things adopted before the drop: {}", CANCEL_NAMES[which as usize], subset, "", if order_rev { "2,1,0" } else { "0,1,2" }, adopted_first);
+				let mut m = rig::manager(sr, 2, rig::caps(4), MainTrackBuilder::new());
+				let mut clocks: Vec<Option<ClockHandle>> = vec![];
+				let mut handles: Vec<Box<dyn SoundHandle>> = vec![];
+				let first_dec = pacer::count();
+				let mut stats = vec![];
+				for i in 0..3 {
+					let mut c = m.add_clock(ClockSpeed::TicksPerSecond(1.0)).expect("clock");
+					c.start();
+					let at = StartTime::ClockTime(ClockTime { clock: c.id(), ticks: 2, fraction: 0.0 });
+					let v = 0.125 * (1 << i) as f32;
+					let h: Box<dyn SoundHandle> = match which {
+						0 | 2 => Box::new(m.play(rig::static_data(sr, rig::dc_frames(4, v)).loop_region(Region::from(..)).start_time(at)).expect("play")),
+						1 | 3 => {
+							let (dec, st) = ScriptedDecoder::new(rig::dc_frames(8, v), sr, vec![2], 1);
+							stats.push(st);
+							Box::new(m.play(StreamingSoundData::from_decoder(dec).loop_region(Region::from(..)).start_time(at)).map_err(|_| ()).expect("play"))
+						}
+						_ => {
+							let mut h = m.play(rig::static_data(sr, rig::dc_frames(4, v)).loop_region(Region::from(..))).expect("play");
+							h.pause(tw(0.0));
+							h.resume_at(at, tw(0.0));
+							Box::new(h)
+						}
+					};
+					clocks.push(Some(c));
+					handles.push(h);
+				}
+				let mut buf = vec![0.0f32; 4];
+				let pace = |n: u64| {
+					if which == 1 || which == 3 {
+						pacer::step_all_from(first_dec, n);
+					}
+				};
+				if adopted_first {
+					pace(8);
+					rig::callback(&mut m, &mut buf, 2, 2);
+				}
+				if which == 2 || which == 3 {
+					for h in handles.iter_mut() {
+						h.pause(tw(0.0));
+					}
+					pace(8);
+					rig::callback(&mut m, &mut buf, 2, 2);
+				}
+				let idxs: Vec<usize> = if order_rev { vec![2, 1, 0] } else { vec![0, 1, 2] };
+				for i in idxs {
+					if subset & (1 << i) != 0 {
+						clocks[i] = None;
+					}
+				}
+				// callbacks: 2 frames each = 0.5 s; the surviving clocks reach tick 2 after 2 s
+				let mut bad = None;
+				for cb in 0..8 {
+					pace(8);
+					let rep = rig::callback(&mut m, &mut buf, 2, 2);
+					ctx.transitions += 1;
+					if !rep.ok() {
+						bad = Some(format!("callback monitor {:?}", rep));
+						break;
+					}
+					for i in 0..3 {
+						let st = handles[i].state();
+						let dropped = subset & (1 << i) != 0;
+						// a clock dropped before it was adopted needs one more callback to go
+						let due = if adopted_first || which >= 2 { 1 } else { 2 };
+						if dropped && cb + 1 >= due + 1 && st != PlaybackState::Stopped {
+							bad = Some(format!("the thing waiting on dropped clock {} is {:?} after callback {} (expected Stopped)", i, st, cb));
+						}
+						if !dropped && st == PlaybackState::Stopped {
+							bad = Some(format!("the thing waiting on live clock {} was cancelled (Stopped after callback {})", i, cb));
+						}
+					}
+					// nothing that waits on a dropped clock is ever heard
+					let heard = buf[0];
+					for i in 0..3 {
+						let v = 0.125 * (1 << i) as f32;
+						let dropped = subset & (1 << i) != 0;
+						let bit = ((heard / 0.125).round() as u32 >> i) & 1 == 1;
+						if dropped && bit && (heard / 0.125).fract() == 0.0 {
+							bad = Some(format!("the thing waiting on dropped clock {} is heard (output {} contains {})", i, heard, v));
+						}
+					}
+					if bad.is_some() {
+						break;
+					}
+				}
+				if bad.is_none() {
+					let n = m.num_clocks();
+					let want = 3 - subset.count_ones() as usize;
+					if n != want {
+						bad = Some(format!("num_clocks() = {} but {} clock handles are alive", n, want));
+					}
+					// the survivors (not paused variants) must have started by now: 4 s > tick 2
+					if which == 0 || which == 1 || which == 4 {
+						let heard = buf[0];
+						let mut want_sum = 0.0f32;
+						for i in 0..3 {
+							if subset & (1 << i) == 0 {
+								want_sum += 0.125 * (1 << i) as f32;
+							}
+						}
+						if (heard - want_sum).abs() > 1e-6 {
+							bad = Some(format!("after 4 s the output is {} but the things on the surviving clocks sum to {}", heard, want_sum));
+						}
+					}
+				}
+				if let Some(b) = bad {
+					ctx.fail(format!("a thing scheduled on a clock is cancelled exactly when its clock no longer exists: violated :: cancellation, {}", CANCEL_NAMES[which as usize]), format!("{}; {}", desc(), b));
+				}
+				ctx.nontrivial_extra += 1;
+				ctx.state(hash64(&(which, subset, adopted_first, order_rev)));
+				// teardown
+				for h in handles.iter_mut() {
+					h.stop(tw(0.0));
+				}
+				pace(8);
+				rig::callback(&mut m, &mut buf, 2, 2);
+				drop(m);
+				for (k, st) in stats.iter().enumerate() {
+					crate::probes::reap_decoder(first_dec + k, st);
+				}
+			}
+		}
+	}
+	ctx.outcome(hash64(&("cancel", which)));
 }
